@@ -44,16 +44,16 @@ type defObs struct {
 }
 
 type chainObs struct {
-	Calls    []string `json:"calls"`
-	Bloom    []node   `json:"bloom"` // what the caller chained for the bloom part (conjunction)
-	Regex    []node   `json:"regex"`
-	Pre      []node   `json:"pre"` // at most one
-	Obs      []int    `json:"obs"`      // rows returned by the built query
-	ObsJSON  []int    `json:"obs_json"` // rows returned by its JSON round trip
-	PreObs   []int    `json:"pre_obs"`
-	PreObsJSON []int  `json:"pre_obs_json"`
-	JSONErr  bool     `json:"json_err"`
-	QErr     bool     `json:"qerr"`
+	Calls      []string `json:"calls"`
+	Bloom      []node   `json:"bloom"` // what the caller chained for the bloom part (conjunction)
+	Regex      []node   `json:"regex"`
+	Pre        []node   `json:"pre"`      // at most one
+	Obs        []int    `json:"obs"`      // rows returned by the built query
+	ObsJSON    []int    `json:"obs_json"` // rows returned by its JSON round trip
+	PreObs     []int    `json:"pre_obs"`
+	PreObsJSON []int    `json:"pre_obs_json"`
+	JSONErr    bool     `json:"json_err"`
+	QErr       bool     `json:"qerr"`
 }
 
 type progObs struct {
